@@ -245,7 +245,13 @@ def worldOp1 (st : Option World) (op : String) (args tr : List String) : Option 
       -- every TLS / DTLS block has been given its TLS context while the configuration was read
       let tls := String.join ((a.clis.filter fun c => c.type = 1 || c.type = 3).map fun c => s!" tlsctx:{bytesStr c.name}:1") ++
                  String.join ((a.srvs.filter fun (_, c, _) => c.type = 1 || c.type = 3).map fun (_, c, _) => s!" tlsctx:{bytesStr c.name}:1")
-      (some w, "ok" ++ a.macopts ++ tls ++ s ++ (if initialOk wz then "" else " MODEL-INITIAL-STATE-NOT-Initial"))
+      -- what each block says, defaults resolved
+      let b2n (b : Bool) : Nat := if b then 1 else 0
+      let cds := String.join (a.clis.map fun c =>
+        s!" cd:{bytesStr c.name}:{c.type},{c.secret.length},{c.dup},{c.addttl},{b2n c.reqMA},{b2n c.reqMAProxy}")
+      let sds := String.join (a.srvs.map fun (_, c, ss) =>
+        s!" sd:{bytesStr c.name}:{c.type},{c.secret.length},{c.retryCount},{c.retryInterval},{ss},{c.addttl},{c.loopPrev},{b2n c.reqMA}")
+      (some w, "ok" ++ a.macopts ++ cds ++ sds ++ tls ++ s ++ (if initialOk wz then "" else " MODEL-INITIAL-STATE-NOT-Initial"))
   | "client", [name], some w =>
     match cliIdx w name with
     | some ci => (some { w with clients := w.clients ++ [{ conf := ci }] }, s!"c{w.clients.length}")
